@@ -211,7 +211,7 @@ def _ops(env: TEnv, kind: str, cls: str) -> Dict[str, Tuple[Callable[[ModObj], A
     return ops
 
 
-def run_histories(ctx: Ctx, max_len: int = 2) -> None:
+def run_histories(ctx: Ctx, max_len: int = 2, only_classes=None, only_kinds=None) -> None:
     prog = ctx.prog
     for mod, cls, _ in NONRIGID:
         ci = prog.cls(mod, cls)
@@ -234,6 +234,10 @@ def run_histories(ctx: Ctx, max_len: int = 2) -> None:
     kinds = ["parameter", "buffer", "tensor", "callable"]
     # plus the dense models with resize=False (the buffered field is then the parameter tensor itself, not a resized copy)
     configs = NONRIGID + [(NONRIGID[0][0], NONRIGID[0][1], {"resize": False}), (NONRIGID[1][0], NONRIGID[1][1], {"steps": 1, "resize": False})]
+    if only_classes is not None:
+        configs = [c for c in configs if c[1] in only_classes]
+    if only_kinds is not None:
+        kinds = [k for k in kinds if k in only_kinds]
     tasks = [(ctx, mod, cls, kw, kind, max_len) for mod, cls, kw in configs for kind in kinds]
     import multiprocessing as mp
     global _TASKS
